@@ -59,6 +59,10 @@ func (e *Engine) verifyFunction(fc *FuncContract) *FuncResult {
 		fr.vars["&"+fv.Name()] = v
 		vf.env["&"+fv.Name()] = v
 	}
+	if st.frontier == "" {
+		st.frontier = "0"
+	}
+	vf.entryFrontier = st.frontier
 	// receivers of methods are non-nil unless the contract says otherwise
 	if fn.Signature.Recv() != nil && len(vf.params) > 0 && !fc.Flags["nilrecv"] {
 		if vf.params[0].S == SInt {
